@@ -65,7 +65,8 @@ def events_for(case, res, tid):
         evs.append(dict(base, ev='plan', need=need, jobs=plan[-1]['jobs'],
                         regions_used=any(x is not None for j in plan[-1]['regions'] for t in j for x in t),
                         idx=idx[-1]['lines'] if idx else [],
-                        small=[c['name'] for c in case['layout']['contigs'] if c['len'] < tg.THRESHOLD]))
+                        small=[c['name'] for c in case['layout']['contigs'] if c['len'] < tg.THRESHOLD],
+                        um_only=[c['name'] for c in case['layout']['contigs'] if c['kinds'] and set(c['kinds']) == {'orphan_unmapped'}]))
     if case['plan_only']:
         return evs
     end = [e for e in pe if e['ev'] == 'end']
@@ -122,6 +123,32 @@ def main():
             add(lay, method, 'multi', 1 + k % 4, nr, bamseed=bs)
             if tier != 'quick':
                 add(lay, method, 'multi', 1 + (k + 2) % 4, not nr and method != 'qflag', bamseed=bs)
+        # (5) directed layouts for boundary coincidences the random generator reaches too rarely
+        def L(*contigs, star=0):
+            return {'contigs': [{'name': n, 'len': ln, 'big': ln >= tg.THRESHOLD, 'kinds': list(k)} for n, ln, k in contigs],
+                    'star': ['unplaced_single'] * star}
+        directed = [
+            # pooled small contigs whose LAST member has reads but writes no molecule (only a supplementary alignment)
+            (L(('chr2', 2500, ['pair', 'single']), ('chr10', 250_000, ['pair']), ('chrM', 40_000, ['sec_only'])), False),
+            (L(('sA', 99_999, ['pair_rev']), ('sB', 2500, ['single']), ('sC', 2500, ['sec_only']), star=1), False),
+            # ... or only rejected fragments, with --no_rejects
+            (L(('chr2', 2500, ['pair']), ('chrM', 40_000, ['orphan_r2'])), True),
+            (L(('sA', 40_000, ['single', 'pair']), ('big', 100_000, ['pair']), ('sC', 2500, ['qcfail', 'orphan_r2'])), True),
+            # contigs (small and big) whose only records are unmapped reads placed on them: idxstats 0 mapped, >0 unmapped
+            (L(('sU', 2500, ['orphan_unmapped']), ('bigU', 250_000, ['orphan_unmapped']), ('big', 100_001, ['pair'])), False),
+            (L(('big', 100_000, ['pair']), ('sU', 40_000, ['orphan_unmapped', 'orphan_unmapped']), ('sV', 2500, ['single'])), False),
+            # exactly ONE small contig with reads next to big ones
+            (L(('chr1', 250_000, ['pair']), ('chrM', 2500, ['single']), ('chr2', 100_000, ['pair_rev'])), False),
+            (L(('chrM', 99_999, ['pair']), ('chr1', 250_000, ['single']), star=1), False),
+            # duplicates of one molecule sequenced on different lanes / flowcells (different read groups)
+            (L(('chr1', 250_000, ['pair', 'dup_lane', 'single'])), False),
+            (L(('chrM', 2500, ['single', 'pair', 'dup_lane', 'dup_lane']), ('chr1', 100_000, ['pair', 'dup_lane']), star=1), False),
+        ]
+        for k, (lay, nr) in enumerate(directed):
+            for method in (['nla', 'chic'] if not nr else ['nla']):
+                bs = rng.randrange(1 << 30)
+                add(lay, method, 'single', 1, nr, bamseed=bs)
+                add(lay, method, 'multi', 1 + k % 3, nr, bamseed=bs)
         # (4) one contig with more fragments than the molecule iterator's ejection interval (check_eject_every = 10 000):
         #     molecules are ejected while reading, not only at the end
         for k in range(1 if tier == 'quick' else 3):
